@@ -5,6 +5,7 @@
 package simhook
 
 import (
+	"context"
 	"net"
 	"net/http"
 	"sync/atomic"
@@ -82,4 +83,27 @@ func ServerListenAndServe(s any) error {
 		return srv.Serve((*f)(srv.Addr))
 	}
 	return srv.ListenAndServe()
+}
+
+// NetListen stands in for net.Listen.
+func NetListen(network, addr string) (net.Listener, error) {
+	if f := listen.Load(); f != nil {
+		return (*f)(addr), nil
+	}
+	return net.Listen(network, addr)
+}
+
+// ListenConfigListen stands in for (*net.ListenConfig).Listen; lc is a net.ListenConfig or a
+// pointer to one.
+func ListenConfigListen(lc any, ctx context.Context, network, addr string) (net.Listener, error) {
+	if f := listen.Load(); f != nil {
+		return (*f)(addr), nil
+	}
+	switch v := lc.(type) {
+	case *net.ListenConfig:
+		return v.Listen(ctx, network, addr)
+	case net.ListenConfig:
+		return v.Listen(ctx, network, addr)
+	}
+	panic("simhook: Listen on something that is not a net.ListenConfig")
 }
